@@ -145,7 +145,12 @@ func mtypesLetters(c caseSpec) string {
 // share their simple name) has one fingerprint whichever members of the alphabet show it.
 var msgTypeRef = regexp.MustCompile(`(?:\b[A-Za-z_][A-Za-z0-9_]*\.|"[^"]+"\.)?\b(?:Get_|List_)?(Msg|Other|Empty)\b`)
 
-func normTypeNames(s string) string { return msgTypeRef.ReplaceAllString(s, "<$1>") }
+// (and the position of the service in the file does not distinguish causes either)
+var svcNameRef = regexp.MustCompile(`(?i:alpha|beta|gamma)Svc`)
+
+func normTypeNames(s string) string {
+	return svcNameRef.ReplaceAllString(msgTypeRef.ReplaceAllString(s, "<$1>"), "<Svc>")
+}
 
 // mtypesOptKeys: the option strings of this dimension: legacy stubs off (no stub names a message)
 // and on, and on with each option that decides how a message type is qualified.
@@ -157,17 +162,21 @@ var mtypesOptKeys = map[string]bool{"none": true, "legacy+Mmain": true, "legacy+
 // A method is (kind, request, response). With n letters:
 //
 //	quick (n = 6), package p, camel, legacy_stubs:
-//	  - every ordered pair of unary methods, all n^4 assignments of the four types, as one
-//	    service and as two services of one method each;
-//	  - every ordered pair of kinds (16) x {both methods echo (request = response), n^2; both take
-//	    T, responses n^2; both return T, requests n^2} x {one service, two services};
-//	  - every triple of echo unary methods (n^3) as one service and as three services;
-//	  - the echo pairs of two unary methods x 6 further option strings.
-//	thorough (n = 8): every ordered pair of methods of any kinds, all n^4 assignments, one and two
-//	  services; the triples with every split into services and, per service count, kinds {U, SS, BD};
-//	  pairs of unary methods over the 6 quick letters x {p, a.b.c, no package} x 7 option strings.
+//	  A every ordered pair of kinds (16) x both methods echo (request = response), n^2, as one service
+//	    and as two services of one method each;
+//	  B the echo pairs of two unary methods x 6 further option strings;
+//	  C every ordered pair of kinds x {both take T, responses n^2; both return T, requests n^2} x {one
+//	    service, two services};
+//	  D every triple of echo unary methods (n^3) as one service and as three services;
+//	  E every ordered pair of unary methods, all n^4 assignments of the four types, one and two services.
+//	thorough: A, C, D, E with n = 8, D with every split into services and with a streaming method in the
+//	  middle, and over the 6 quick letters:
+//	  F every ordered pair of kinds x all 6^4 assignments, one service;
+//	  G E for the packages a.b.c and none;
+//	  H {p, a.b.c, none} x 7 option strings x the pairs of unary methods of A and C.
 func enumerateMTypes(tier string, add func(caseSpec)) {
 	legacy := optSet{"legacy", "legacy_stubs"}
+	thorough := tier == "thorough"
 	mk := func(pkg string, o optSet, svcs ...[]string) {
 		add(caseSpec{Kind: "mtypes", Methods: svcs, Naming: "camel", Pkg: pkg, OptKey: o.Key, Param: o.Param})
 	}
@@ -175,50 +184,63 @@ func enumerateMTypes(tier string, add func(caseSpec)) {
 		mk(pkg, o, []string{m1, m2})
 		mk(pkg, o, []string{m1}, []string{m2})
 	}
-	var opts []optSet
-	for _, o := range validOptSets("p", "other") {
-		if mtypesOptKeys[o.Key] {
-			opts = append(opts, o)
-		}
-	}
 	ls := quickLetters
-	if tier == "thorough" {
+	if thorough {
 		ls = allLetters
 	}
-	// simplest first: echo pairs, then the restricted crossings, then everything
-	for _, k1 := range allKinds {
-		for _, k2 := range allKinds {
-			for _, a := range ls {
-				for _, b := range ls {
-					pair("p", legacy, methodSpec(k1, a, a), methodSpec(k2, b, b))
+	// restricted: the assignments of A and C for one pair of kinds
+	restricted := func(pkg string, o optSet, k1, k2 string, letters []string, which string) {
+		for _, a := range letters {
+			for _, b := range letters {
+				if strings.Contains(which, "A") {
+					pair(pkg, o, methodSpec(k1, a, a), methodSpec(k2, b, b))
+				}
+				if strings.Contains(which, "C") {
+					pair(pkg, o, methodSpec(k1, "T", a), methodSpec(k2, "T", b))
+					pair(pkg, o, methodSpec(k1, a, "T"), methodSpec(k2, b, "T"))
 				}
 			}
 		}
 	}
-	for _, o := range opts {
-		for _, a := range quickLetters {
-			for _, b := range quickLetters {
-				pair("p", o, methodSpec(kU, a, a), methodSpec(kU, b, b))
-			}
-		}
-	}
-	for _, k1 := range allKinds {
-		for _, k2 := range allKinds {
-			for _, a := range ls {
-				for _, b := range ls {
-					pair("p", legacy, methodSpec(k1, "T", a), methodSpec(k2, "T", b))
-					pair("p", legacy, methodSpec(k1, a, "T"), methodSpec(k2, b, "T"))
+	full := func(pkg string, o optSet, k1, k2 string, letters []string, oneServiceOnly bool) {
+		for _, q1 := range letters {
+			for _, r1 := range letters {
+				for _, q2 := range letters {
+					for _, r2 := range letters {
+						if oneServiceOnly {
+							mk(pkg, o, []string{methodSpec(k1, q1, r1), methodSpec(k2, q2, r2)})
+						} else {
+							pair(pkg, o, methodSpec(k1, q1, r1), methodSpec(k2, q2, r2))
+						}
+					}
 				}
 			}
 		}
 	}
+	// A
+	for _, k1 := range allKinds {
+		for _, k2 := range allKinds {
+			restricted("p", legacy, k1, k2, ls, "A")
+		}
+	}
+	// B
+	for _, o := range validOptSetsByKey("p", mtypesOptKeys) {
+		restricted("p", o, kU, kU, quickLetters, "A")
+	}
+	// C
+	for _, k1 := range allKinds {
+		for _, k2 := range allKinds {
+			restricted("p", legacy, k1, k2, ls, "C")
+		}
+	}
+	// D
 	for _, a := range ls {
 		for _, b := range ls {
 			for _, c := range ls {
 				m := []string{methodSpec(kU, a, a), methodSpec(kU, b, b), methodSpec(kU, c, c)}
 				mk("p", legacy, m)
 				mk("p", legacy, m[:1], m[1:2], m[2:])
-				if tier == "thorough" {
+				if thorough {
 					mk("p", legacy, m[:1], m[1:])
 					mk("p", legacy, m[:2], m[2:])
 					for _, k := range []string{kSS, kBD} {
@@ -230,40 +252,25 @@ func enumerateMTypes(tier string, add func(caseSpec)) {
 			}
 		}
 	}
-	kinds := [][2]string{{kU, kU}}
-	if tier == "thorough" {
-		kinds = nil
-		for _, k1 := range allKinds {
-			for _, k2 := range allKinds {
-				kinds = append(kinds, [2]string{k1, k2})
-			}
-		}
-	}
-	for _, kk := range kinds {
-		for _, q1 := range ls {
-			for _, r1 := range ls {
-				for _, q2 := range ls {
-					for _, r2 := range ls {
-						pair("p", legacy, methodSpec(kk[0], q1, r1), methodSpec(kk[1], q2, r2))
-					}
-				}
-			}
-		}
-	}
-	if tier != "thorough" {
+	// E
+	full("p", legacy, kU, kU, ls, false)
+	if !thorough {
 		return
 	}
+	// F
+	for _, k1 := range allKinds {
+		for _, k2 := range allKinds {
+			full("p", legacy, k1, k2, quickLetters, true)
+		}
+	}
+	// G
+	for _, pkg := range []string{"a.b.c", ""} {
+		full(pkg, legacy, kU, kU, quickLetters, false)
+	}
+	// H
 	for _, pkg := range []string{"p", "a.b.c", ""} {
 		for _, o := range append([]optSet{legacy}, validOptSetsByKey(pkg, mtypesOptKeys)...) {
-			for _, q1 := range quickLetters {
-				for _, r1 := range quickLetters {
-					for _, q2 := range quickLetters {
-						for _, r2 := range quickLetters {
-							pair(pkg, o, methodSpec(kU, q1, r1), methodSpec(kU, q2, r2))
-						}
-					}
-				}
-			}
+			restricted(pkg, o, kU, kU, quickLetters, "AC")
 		}
 	}
 }
